@@ -25,6 +25,12 @@ def dispatch(prop, tier, seed):
     if prop == "C12":
         from . import eng_cprop
         return eng_cprop.check(prop, tier, seed)
+    if prop == "C16":
+        from . import eng_groupby
+        return eng_groupby.check(prop, tier, seed)
+    if prop == "C13":
+        from . import eng_ctx
+        return eng_ctx.check(prop, tier, seed)
     if prop == "C09":
         from . import eng_tee
         return eng_tee.check(prop, tier, seed)
